@@ -328,6 +328,9 @@ def classify_unwrap_exit(run, r, be, op):
     s = fmt_n(n)
     if isinstance(cause, tuple) and cause[0] in ("split", "tryarray"):
         return ("length", "")
+    from textforms import exact_len_conv_name
+    if isinstance(n, tuple) and n and n[0] == "call" and exact_len_conv_name(n[1]) is not None:
+        return ("length", "")          # whole-buffer -> [u8; N] conversion: fails on the length only
     if isinstance(n, tuple) and n and n[0] in ("VERIFY", "VERIFYSIG"):
         return ("verification", "")
     if op == "pbkw":
